@@ -77,6 +77,7 @@ def explore(ctx):
     ctx.sample({'reduce_scenario': {k: red[0][2][k] for k in ('files', 'group', 'rules', 'cfg', 'sched')}, 'impl_output': red[0][1][:40]})
     for nm, fn, cs in (('c01e', 'sc_run_each', each), ('c01r', 'sc_reduce', red)):
         bad = coq.corr_eval(nm, IMPORTS, fn, [(a, b) for a, b, _ in cs], shard=100)
+        ctx.count('model-out-of-fuel(undecided)', len(coq.LAST_FUEL))
         ctx.corr_cases += len(cs)
         ctx.corr_disagree += len(bad)
         for b in bad[:5]:
